@@ -251,6 +251,28 @@ func materialise(dir string, t, i int, data []byte, fp *plan.FSPlan) (string, er
 type simTransport struct {
 	k     *kernel
 	world *world
+	// headerTimeout emulates http.Transport.ResponseHeaderTimeout of a
+	// transport the code under test configured itself
+	headerTimeout time.Duration
+}
+
+// wrapClient routes a client that brings its own transport to the simulated
+// network, keeping the one timeout of http.Transport that concerns an
+// established connection (ResponseHeaderTimeout).
+func (tr *simTransport) wrapClient(c *http.Client) *http.Client {
+	if c.Transport == nil {
+		return c // http.DefaultTransport is the simulated one already
+	}
+	if _, ok := c.Transport.(*simTransport); ok {
+		return c
+	}
+	nt := &simTransport{k: tr.k, world: tr.world}
+	if ht, ok := c.Transport.(*http.Transport); ok {
+		nt.headerTimeout = ht.ResponseHeaderTimeout
+	}
+	tr.k.clientWrapped()
+	c.Transport = nt
+	return c
 }
 
 type netState struct {
@@ -279,6 +301,13 @@ func (tr *simTransport) RoundTrip(req *http.Request) (*http.Response, error) {
 		oo.Fired = append(oo.Fired, "net:"+what)
 		k.event(evFault, int64(t.id), int64(t.curOp), int64(ns.requests))
 		k.fingerprint(evFault, int64(len(what)), int64(ns.requests))
+	}
+	if tr.headerTimeout > 0 && (np.NoAnswer || time.Duration(np.LatencyUs)*time.Microsecond > tr.headerTimeout) && !np.FailConnect {
+		fire("response-header-timeout")
+		if k.sleep(tr.headerTimeout, done) {
+			return nil, ctxErr()
+		}
+		return nil, &injectedError{"timeout awaiting response headers"}
 	}
 	if np.LatencyUs > 0 {
 		if k.sleep(time.Duration(np.LatencyUs)*time.Microsecond, done) {
